@@ -487,6 +487,7 @@ class Result(object):
         self.obligations = []       # dicts
         self.paths = 0
         self.post_prunes = 0
+        self.completed = 0
         self.unreached = []
         self.flags = set()
         self.solver_s = 0.0
@@ -609,9 +610,10 @@ def verify_contract(world, c, timeout_ms=10000, only_case=None, budget_s=None):
                 if 'post' in c.fns:
                     oo = outcome_obj(out)
                     try:
-                        pargs = vals + [oo]
+                        ghosts = [fresh_of_dom(it, d, g) for g, d in (c.decl.get('ghost') or {}).items()]
+                        pargs = vals + ghosts + [oo]
                         if old is not None:
-                            pargs = vals + [old, oo]
+                            pargs = vals + ghosts + [old, oo]
                         ok = it.truth(it.call(c.fns['post'], pargs))
                     except PyRaise as pr:
                         raise OutOfReach('the postcondition itself raised %s on this path' % pr.cls)
@@ -628,6 +630,8 @@ def verify_contract(world, c, timeout_ms=10000, only_case=None, budget_s=None):
                     continue
                 res.flags |= ctx.flags
                 res.post_prunes += ctx.post_prunes
+                if status in ('done', 'pathend') or ctx.phase == 'post' or ctx.obligations:
+                    res.completed += 1
                 for ob in ctx.obligations:
                     goal = z3.simplify(ob.goal) if not isinstance(ob.goal, bool) else z3.BoolVal(ob.goal)
                     if z3.is_true(goal):
@@ -662,7 +666,11 @@ def verify_contract(world, c, timeout_ms=10000, only_case=None, budget_s=None):
                         rec['result'] = 'undecided'
                         rec['reason'] = str(info)
                     res.obligations.append(rec)
-        if res.unreached and res.paths == len(res.unreached):
+        if not c.is_lemma and res.completed == 0 and not res.unreached:
+            # vacuity guard: no path of the function reached its postcondition (contradictory precondition / domain)
+            res.status = 'error'
+            res.reason = 'vacuous: none of the %d explored paths satisfies the precondition and reaches the postcondition' % res.paths
+        elif res.unreached and res.paths == len(res.unreached):
             res.status = 'out_of_reach'
             res.reason = '; '.join(sorted(set(res.unreached))[:3])
         elif res.unreached:
